@@ -271,8 +271,17 @@ func runExchange(spec exchangeSpec) exchangeResult {
 			req.TLS = &tls.ConnectionState{}
 		}
 		if spec.ctxTimeout > 0 {
-			ctx, cancel := context.WithTimeout(req.Context(), spec.ctxTimeout)
-			defer cancel()
+			// a deadline on the request context (a timeout middleware in front of the forwarder) that expires while the
+			// backend, having received the whole request, stays silent. The expiry is tied to that event, not to a
+			// timer: on a loaded machine a timed deadline can fire while the request is still being sent.
+			ctx := &eventDeadline{Context: req.Context(), done: make(chan struct{}), at: time.Now().Add(spec.ctxTimeout)}
+			go func() {
+				select {
+				case <-backendGotRequest:
+				case <-releaseBackend:
+				}
+				close(ctx.done)
+			}()
 			req = req.WithContext(ctx)
 		}
 		fwd.ServeHTTP(w, req)
@@ -464,4 +473,22 @@ func (b *orderedBody) Read(p []byte) (int, error) {
 func (b *orderedBody) Close() error {
 	b.written()
 	return b.rc.Close()
+}
+
+// eventDeadline is a context whose deadline expires when an event of the simulation happens.
+type eventDeadline struct {
+	context.Context
+	done chan struct{}
+	at   time.Time
+}
+
+func (c *eventDeadline) Deadline() (time.Time, bool) { return c.at, true }
+func (c *eventDeadline) Done() <-chan struct{}       { return c.done }
+func (c *eventDeadline) Err() error {
+	select {
+	case <-c.done:
+		return context.DeadlineExceeded
+	default:
+		return c.Context.Err()
+	}
 }
